@@ -51,6 +51,8 @@ def outcome(e, h, fut, cbs, pend_fields, before):
         return f"future-exception:{type(ex).__name__}"
     if cbs:
         name, args = cbs[0]
+        if name not in h.COMMANDS:
+            return f"callback:{name}:[not a frame of this version]"
         fields = ezsplib.schema_fields(h.COMMANDS[name][2])
         try:
             if len(fields) == 1 and fields[0][0] == "<single>":
@@ -115,7 +117,7 @@ def run(ctx):
                 frame = ezsplib.spec_header(version, seq, cid) + b"".join(p[1] for p in parts)
                 # frame IDs this version does not define, the same few again and again through the run (an NCP newer than
                 # the tables keeps sending them): each arrival is dropped like the first
-                known = set(h.COMMANDS_BY_ID) if hasattr(h, "COMMANDS_BY_ID") else set(ids)
+                known = {c[0] for c in h.COMMANDS.values()}   # the version's table, not whatever the instance has learnt since
                 unknown_ids = [i for i in ((0xF7, 0xE9) if version < 8 else (0x0F37, 0x00F7, 0x1234)) if i not in known]
                 repeated = [ezsplib.spec_header(version, seq, u) + bytes(rng.getrandbits(8) for _ in range(rng.choice([0, 1, 4]))) for u in unknown_ids]
                 for mode in ("pending-same", "pending-other", "none", "dead-same"):
